@@ -1453,3 +1453,22 @@ package avro
 //@   props C13, C02
 //@   requires w != nil
 //@   modifies w.buf, BH[w.buf]
+
+// ---------------------------------------------------------------- union.go: New (a value of the branch type; MapCodec.Read allocates map values with it)
+//@ func (*unionOneAndNullCodec).New
+//@   implements Codec.New
+//@   props C06, C03
+//@   let i0 := r.i, b0 := r.buf
+//@   requires wfRBS(r) && wfc(asiface(u)) && typed(asiface(u))
+//@   ensures [C05,C20,C03,C04] wfRBS(r) && r.i == i0 && r.buf == b0 && sameobj(b0)
+//@   ensures [C05,C20,C11,C03] dsz(u.codec) > 0 ==> res != nil && rawalloc(res, dsz(u.codec)) && rawfresh(res, dsz(u.codec)) && zeroed(res, dsz(u.codec))
+//@   modifies r.rb.types, type resourceType, M[0, 0]
+
+//@ func (*unionNullString).New
+//@   implements Codec.New
+//@   props C06, C03
+//@   let i0 := r.i, b0 := r.buf
+//@   requires wfRBS(r) && u != nil
+//@   ensures [C05,C20,C03,C04] wfRBS(r) && r.i == i0 && r.buf == b0 && sameobj(b0)
+//@   ensures [C05,C20,C11,C03] res != nil && rawalloc(res, 16) && rawfresh(res, 16) && zeroed(res, 16)
+//@   modifies r.rb.types, type resourceType, M[0, 0]
